@@ -19,7 +19,8 @@ RECEIVERS = ["[]", "[1]", "[1, 2, 3]", "[3, 1, 2]", '["b", "a", "c"]', '[1, "1",
              # the same nested array object more than once (a shared reference is not a cycle), directly and through other arrays
              "(function () { var b = [1, 2]; return [b, b]; })()", "(function () { var b = [5]; return [[b, b], [5, 1], b]; })()",
              "(function () { var b = [2, 1]; var c = [b, 3]; return [c, b, c]; })()"]
-ARGS = ["undefined", "null", "NaN", "Infinity", "-Infinity", "-1", "0", "1", "2", "3", "100", "1.5", '"1"', '"a"', "true", "-2"]
+ARGS = ["undefined", "null", "NaN", "Infinity", "-Infinity", "-1", "0", "1", "2", "3", "100", "1.5", '"1"', '"a"', "true", "-2",
+        "({valueOf: function () { return 1; }, toString: function () { return 'x'; }})", "({toString: function () { return '2'; }})", "[1]"]
 METHODS = ["push", "pop", "shift", "unshift", "toString", "join", "map", "filter", "reduce", "reduceRight", "forEach", "indexOf", "lastIndexOf", "find", "findIndex", "some", "every",
            "concat", "slice", "splice", "reverse", "includes", "sort"]
 CB_METHODS = {"map", "filter", "forEach", "find", "findIndex", "some", "every"}
